@@ -79,6 +79,10 @@ def run(prog, tier, extra=None):
                     base, ix = strip(x[2][0]), x[2][1]
                     if base[0] == "param" or (base[0] == "field" and base[3] == "new_chain"):
                         idx0 = idx0 or (ix[0] == "const" and ix[1] == 0)
+                if x[0] in ("call", "via") and x[1] in ("std::slice::first", "std::vec::Vec::first"):
+                    idx0 = True      # new_chain.first()
+                if x[0] in ("call",) and x[1] in ("std::slice::get", "std::vec::Vec::get") and len(x[2]) == 2 and x[2][1][0] == "const" and x[2][1][1] == 0:
+                    idx0 = True      # new_chain.get(0)
                 if x[0] in ("index", "cindex"):
                     if (x[0] == "cindex" and x[2] == 0) or (x[0] == "index" and x[2][0] == "const" and x[2][1] == 0):
                         idx0 = True
